@@ -16,7 +16,7 @@ PID = 'C16'
 JOB = 'checks.jobs:history_world'
 JOB_GEN = 'checks.jobs:gen_world'
 STAGES = ['test_all', 'fisher', 'match', 'combine']
-OBS_CONFIGS = [('core_maths', 3), ('core_maths', 4), ('osc_maths', 3), ('base_e_maths', 3), ('core_maths', 2), ('ext_maths', 2)]
+OBS_CONFIGS = [('core_maths', 3), ('core_maths', 4), ('osc_maths', 3), ('base_e_maths', 3), ('core_maths', 2), ('ext_maths', 2), ('core_maths', 5)]
 OTHER = [('ext_maths', 3), ('osc_maths', 2), ('base10_maths', 3), ('keep_duplicates', 2), ('core_maths', 5), ('base_e_maths', 2), ('ext_maths', 1),
          ('osc_maths', 4)]
 FIT_OPTS = dict(Niter_params=[2], Nconv_params=[1])
@@ -28,6 +28,9 @@ for _cfg in (('core_maths', 3), ('core_maths', 4), ('osc_maths', 3)):
         DIRECTED.append(dict(cfg=_cfg, kind='gen', P_obs=_P, ops=['gen_identical']))
         DIRECTED.append(dict(cfg=_cfg, kind='gen', P_obs=_P, ops=['gen_same_basis', 'gen_other', 'gen_identical', 'gen_same_basis']))
     DIRECTED.append(dict(cfg=_cfg, kind='gen', P_obs=1, P_first=3, ops=['gen_identical', 'restart:2', 'gen_identical', 'restart:1']))
+for _cfg in (('core_maths', 3), ('core_maths', 4), ('core_maths', 5)):
+    for _k in range(3):
+        DIRECTED.append(dict(cfg=_cfg, kind='gen', P_obs=1, ops=['gen_faulty']))
 for _st in STAGES:
     DIRECTED.append(dict(cfg=('core_maths', 3), kind='fit', stage=_st, P_obs=1, P_first=3, ipe=False, ops=['pipe_same', 'restart:1']))
     DIRECTED.append(dict(cfg=('core_maths', 3), kind='fit', stage=_st, P_obs=2, P_first=3, ipe=False, ops=['pipe_same', 'pipe_same', 'restart:2']))
@@ -114,7 +117,7 @@ def draw_history(seed, i, quick, recipe=None):
             likes_here.add(name)
     nops = rng.randint(0, 5)
     CODES = {'gen_other': 0.1, 'gen_same_basis': 0.3, 'gen_identical': 0.5, 'pipe_same': 0.6, 'pipe_other_like': 0.7, 'pipe_other_basis': 0.8,
-             'restart': 0.95}
+             'restart': 0.9, 'gen_faulty': 0.97}
     plan_ops = recipe.get('ops')
     for oi in range(len(plan_ops) if plan_ops is not None else nops):
         c = rng.random()
@@ -156,11 +159,26 @@ def draw_history(seed, i, quick, recipe=None):
             need_like('Lbas', dict(like_obs, run_name='bas', fn_set=other_basis))
             cur().extend(pipeline('Lbas', n, opts=topt))
             desc.append('pipeline other basis %s' % other_basis)
-        else:
+        elif c < 0.94:
             if cur():
                 segments.append(dict(P=forced_P or rng.choice([1, 2, 3]), program=[]))
                 likes_here = set()
                 desc.append('restart P=%d' % segments[-1]['P'])
+        else:
+            # an earlier COMPLETED run of the identical generation in which many steps timed out (it takes a different
+            # number of rounds and leaves other per-round files behind); own processes, then a restart
+            if cur():
+                segments.append(dict(P=1, program=[]))
+            else:
+                segments[-1]['P'] = 1
+            dens = rng.choice([0.15, 0.4, 0.8])
+            segments[-1]['plan'] = {'0': {str(b): ['stmt', rng.randint(1, 14)] for b in range(1, 700) if rng.random() < dens}}
+            cur().append(['gen', dict(runname=runname, compl=n)])
+            libs.add((runname, n))
+            desc.append('gen %s/%d with timeouts (identical call)' % (runname, n))
+            segments.append(dict(P=rng.choice([1, 2]), program=[]))
+            likes_here = set()
+            desc.append('restart P=%d' % segments[-1]['P'])
     # the observed call runs in a segment with P_obs ranks
     if segments[-1]['P'] != P_obs:
         if cur():
